@@ -5,6 +5,7 @@ mod chainrec;
 mod keys;
 mod layout;
 mod limits;
+mod snap;
 mod util;
 
 fn main() {
@@ -21,6 +22,7 @@ fn main() {
         "auth-outcomes" => auth::cmd_outcomes(&args[2], &args[3], args[4].parse().unwrap()),
         "limits-replay" => limits::cmd_replay(&args[2], &args[3]),
         "limits-time" => limits::cmd_time(&args[2]),
+        "snap-replay" => snap::cmd_replay(&args[2], &args[3]),
         "auth-replay" => auth::cmd_replay(&args[2], &args[3]),
         "dlog-replay" => dlog::cmd_replay(&args[2], &args[3]),
         "chain-honest" => chain::cmd_honest(&args[2], &args[3]),
